@@ -91,8 +91,24 @@ func c02CheckObject(rv reflect.Value, m map[string]json.RawMessage, fail func(wh
 		declared[term+"Map"] = f.Type == tNlv
 		fv := rv.Field(i)
 		raw, present := m[term]
-		if f.Type == tNlv && !present {
-			raw, present = m[term+"Map"]
+		if f.Type == tNlv {
+			// ActivityStreams: <term> holds a string, <term>Map a language map (an object of strings); never both
+			rawMap, presentMap := m[term+"Map"]
+			if present && presentMap {
+				fail("text property "+term+" is written once", "both "+term+" and "+term+"Map")
+			}
+			if present && (len(raw) == 0 || raw[0] != '"') {
+				fail("text under the plain term "+term+" is a JSON string", string(raw))
+			}
+			if presentMap {
+				var lm map[string]string
+				if err := json.Unmarshal(rawMap, &lm); err != nil {
+					fail("text under "+term+"Map is a language map (an object of strings)", string(rawMap))
+				}
+			}
+			if !present {
+				raw, present = rawMap, presentMap
+			}
 		}
 		if !present {
 			continue
@@ -222,6 +238,39 @@ func runC02(seed int64, n int, tier string, outDir string) (*Report, error) {
 		}
 		if i < 2 {
 			rep.Sample(map[string]string{"value": term, "json": string(out)})
+		}
+	}
+	// directed: multi-language texts in which some values are empty, in every text property of every kind
+	for ti, rt := range structTypes {
+		for fi := 0; fi < rt.NumField(); fi++ {
+			if rt.Field(fi).Type != tNlv {
+				continue
+			}
+			for vi, nlv := range []ap.NaturalLanguageValues{
+				{{Ref: "en", Value: ap.Content("Hello")}, {Ref: "fr", Value: ap.Content("")}},
+				{{Ref: "en", Value: ap.Content("")}, {Ref: "fr", Value: ap.Content("Salut")}},
+				{{Ref: "en", Value: ap.Content("")}, {Ref: "fr", Value: ap.Content("")}},
+				{{Ref: ap.NilLangRef, Value: ap.Content("")}, {Ref: "fr", Value: ap.Content("x")}},
+				{{Ref: "en", Value: ap.Content("")}},
+				{{Ref: ap.NilLangRef, Value: ap.Content("")}},
+				{{Ref: "en", Value: ap.Content("a")}, {Ref: "fr", Value: ap.Content("")}, {Ref: "de", Value: ap.Content("")}},
+			} {
+				pv := reflect.New(rt)
+				pv.Elem().FieldByName("ID").SetString("https://example.com/t")
+				if f := pv.Elem().FieldByName("Type"); f.IsValid() {
+					f.SetString(string(typeByKind[rt.Name()][len(typeByKind[rt.Name()])-1]))
+				}
+				pv.Elem().Field(fi).Set(reflect.ValueOf(nlv))
+				it := pv.Interface().(ap.Item)
+				out, err := it.(json.Marshaler).MarshalJSON()
+				if err != nil {
+					rep.Violate(Violation{Op: "MarshalJSON", Input: CoqItem(it), Expected: "no error", Observed: err.Error()})
+				}
+				rep.Evaluations++
+				rep.Count("directed:text-with-empty-values")
+				cw.Add("("+CoqItem(it)+", "+hxSum(out)+")", fmt.Sprintf("empty texts %s.%s #%d", rt.Name(), rt.Field(fi).Name, vi))
+				c02Native(it, out, rep, 100000+ti*1000+fi*10+vi)
+			}
 		}
 	}
 	// the public entry point (jsonld wrapper) must also produce valid JSON
